@@ -156,6 +156,9 @@ def _subs(tier, prop):
             {'k': 'block', 'dev': 'h1', 't': 't0'}, {'k': 'unblock', 'dev': 'h1', 't': 't1'}]), mons, zero=['cs'], pre=['t0 <= t1']))
         S.append(mk_sub('F6-fail-restore-n2', _faults_basic(2, [
             {'k': 'fail', 'dev': 'p1', 't': 't0'}, {'k': 'restore', 'dev': 'p1', 't': 't1'}]), mons, zero=['cs'], pre=['t0 <= t1']))
+        S.append(mk_sub('F6-shutdown-armfail-restore', _faults_basic(2, [
+            {'k': 'shutdown', 'dev': 'p1', 't': 't0'}, {'k': 'armfail', 'dev': 'p1', 't': 't0', 'delay': 'd1'},
+            {'k': 'restore', 'dev': 'p1', 't': 't2'}]), mons, zero=['cs', 'c0'], pre=['t0 + d1 <= t2']))
         S.append(mk_sub('F5-two-procs-one-pool', resources2(2), mons, zero=['cs', 'c0']))
         S.append(mk_sub('F5-pool-raised-later', with_ops(resources2(2, cap=0), [
             {'k': 'addres', 'res': 'r', 'amount': 1, 't': 't0'}]), mons, zero=['cs', 'c0']))
